@@ -4,8 +4,8 @@
     (+ AsyncFS.open_from / read_range on top) over `FakeFile`, a pure-Python BinaryIO with symbolic size and a
     symbolic short-read schedule;
   * `_ReadableStreamFromBlocking._readexactly` on its own (the contract the unbounded S3 run relies on);
-  * Azure: the REAL AzureAsyncFS._open_from + AzureReadableStream.read/readexactly over a fake BlobClient whose
-    downloader hands the body out in chunks of symbolic sizes.
+(The Azure stream, S3 and sized-read sequences are decided by the native explorer, harness/C23_cloud.py, which is
+two orders of magnitude faster per path; this module is the CrossHair cross-check of the local back end.)
 
 Object content is DATA[:size] with pairwise distinct byte values, so "the right bytes" is equivalent to "the right
 positions" for every size <= N.  Coroutines are driven by hand (nothing really suspends): `blocking_to_async` is
@@ -19,31 +19,6 @@ from vt import loader
 
 loader.install()
 
-import azure.core.exceptions as _ace  # noqa: E402
-
-
-class HttpResponseError(Exception):
-    def __init__(self, status_code=None, message=''):
-        super().__init__(message)
-        self.status_code = status_code
-
-
-class ResourceNotFoundError(HttpResponseError):
-    pass
-
-
-class ClientAuthenticationError(HttpResponseError):
-    pass
-
-
-if not (isinstance(getattr(_ace, 'HttpResponseError', None), type) and issubclass(_ace.HttpResponseError, Exception)):
-    _ace.HttpResponseError = HttpResponseError
-    _ace.ResourceNotFoundError = ResourceNotFoundError
-    _ace.ClientAuthenticationError = ClientAuthenticationError
-else:  # harness/C23_cloud.py got there first in this process: share its classes
-    HttpResponseError = _ace.HttpResponseError  # noqa: F811
-
-from hailtop.aiocloud.aioazure import fs as azfs  # noqa: E402
 from hailtop.aiotools import local_fs  # noqa: E402
 from hailtop.aiotools.fs import fs as fsmod  # noqa: E402
 from hailtop.aiotools.fs import stream as fsstream  # noqa: E402
@@ -206,155 +181,3 @@ def local_open_read_outcome(size, start, length):
 def local_open_read_ok(size, start, length):
     kind, r = local_open_read_outcome(size, start, length)
     return kind == 'ok' and r == expected(size, start, length)
-
-
-# ---- (L4) local open_from + sized reads until b'' (short reads allowed) ----------------------------------
-def local_read_loop_outcome(size, start, length, ns, shorts):
-    fs = _local_fs(size, shorts)
-
-    async def go():
-        out = []
-        async with await fs.open_from('/obj', start, length=length) as f:
-            for n in ns:
-                b = await f.read(n)
-                if len(b) > n:
-                    return None
-                out.append(b)
-            # drain with 1-byte... no: with whole-remaining reads, at most N+1 rounds
-            for _ in range(N + 1):
-                b = await f.read(N)
-                if not b:
-                    break
-                out.append(b)
-            else:
-                return None
-        return b''.join(out)
-    try:
-        return ('ok', drive(go()))
-    except Exception as e:
-        return ('exc', type(e).__name__)
-
-
-def local_read_loop_ok(size, start, length, ns, shorts):
-    kind, r = local_read_loop_outcome(size, start, length, ns, shorts)
-    return kind == 'ok' and r == expected(size, start, length)
-
-
-# ---- Azure -----------------------------------------------------------------------------------------------
-class _Downloader:
-    def __init__(self, body, cuts):
-        self.body = body
-        self.cuts = cuts
-
-    async def readall(self):
-        return self.body
-
-    def chunks(self):
-        body, cuts = self.body, self.cuts
-
-        async def it():
-            p = 0
-            for c in cuts:
-                if 1 <= c < len(body) - p:
-                    yield body[p:p + c]
-                    p += c
-            if p < len(body):
-                yield body[p:]
-        return it()
-
-
-class _BlobClient:
-    """download_blob semantics of azure.storage.blob.aio.BlobClient (see harness/C23_cloud.py)."""
-
-    def __init__(self, size, cuts):
-        self.size = size
-        self.cuts = cuts
-        self.calls = []
-
-    async def download_blob(self, offset=None, length=None):
-        self.calls.append((offset, length))
-        d = DATA[:self.size]
-        if offset is None:
-            if length is not None:
-                raise ValueError('Offset value must not be None if length is set.')
-            return _Downloader(d, self.cuts)
-        if length is not None and length < 1:
-            return _Downloader(d, self.cuts)
-        if offset >= self.size:
-            raise HttpResponseError(416, 'InvalidRange')
-        if length is None:
-            return _Downloader(d[offset:], self.cuts)
-        return _Downloader(d[offset:offset + length], self.cuts)
-
-
-def _azure_fs(size, cuts):
-    fs = azfs.AzureAsyncFS.__new__(azfs.AzureAsyncFS)
-    client = _BlobClient(size, cuts)
-
-    async def get_blob_client(url):
-        return client
-
-    async def yes(url):
-        return True
-
-    async def no(url):
-        return False
-
-    fs.get_blob_client = get_blob_client
-    fs.exists = yes
-    fs.isfile = yes
-    fs.isdir = no
-    return fs
-
-
-AZ_URL = 'https://account.blob.core.windows.net/container/obj'
-
-
-def azure_read_range_outcome(size, start, end, incl, cuts):
-    fs = _azure_fs(size, cuts)
-    try:
-        return ('ok', drive(fs.read_range(AZ_URL, start, end, end_inclusive=incl)))
-    except UnexpectedEOFError:
-        return ('eof', None)
-    except Exception as e:
-        return ('exc', type(e).__name__)
-
-
-def azure_read_range_ok(size, start, end, incl, cuts):
-    kind, r = azure_read_range_outcome(size, start, end, incl, cuts)
-    m = end - start + (1 if incl else 0)
-    if m == 0:
-        return kind == 'ok' and r == b''
-    if start + m <= size:
-        return kind == 'ok' and r == DATA[start:start + m]
-    return kind == 'eof'
-
-
-def azure_seq_outcome(size, start, length, ns, cuts):
-    """open_from(start, length); read(n) for n in ns; read() — concatenation of everything returned."""
-    fs = _azure_fs(size, cuts)
-
-    async def go():
-        out = []
-        async with await fs.open_from(AZ_URL, start, length=length) as f:
-            for n in ns:
-                b = await f.read(n)
-                if len(b) > n:
-                    return None
-                out.append(b)
-            out.append(await f.read())
-        return b''.join(out)
-    try:
-        return ('ok', drive(go()))
-    except UnexpectedEOFError:
-        return ('eof', None)
-    except Exception as e:
-        return ('exc', type(e).__name__)
-
-
-def azure_seq_ok(size, start, length, ns, cuts):
-    kind, r = azure_seq_outcome(size, start, length, ns, cuts)
-    if kind == 'ok':
-        return r == expected(size, start, length)
-    # an offset at or past the end of the object may be signalled as an unexpected EOF (as GCS and S3 do)
-    return kind == 'eof' and start >= size and length != 0
